@@ -131,7 +131,7 @@ Inductive probe_result : Type :=
 | PNone
 | PFatal.                 (* openat() failed with something else than ENOENT *)
 
-Definition NAME_MAX : nat := 255.
+Definition NAME_MAX : nat := N.to_nat SYS_NAME_MAX.      (* limits.h, via the translator *)
 
 (** the probing loop: [fn] is the name tried now, [curpart] what is left of remhost (None: "default" is
     being tried).  openat(dirfd, fn) succeeds iff [files] has the name; a name longer than NAME_MAX gives
@@ -153,7 +153,7 @@ Fixpoint probe (fuel : nat) (files : list (bytes * bytes)) (fn : bytes) (curpart
               | None => probe f files default_name None
               | Some dot =>
                   (* assert(strlen(dot) < sizeof(fnbuf) - 2) is compiled out; strcpy(fnbuf + 1, dot) into char fnbuf[DOMAINNAME_MAX + 2] *)
-                  if Nat.leb 256 (length dot) then Crash 5
+                  if Nat.leb (N.to_nat ROUTE_FNBUF_SIZE - 1) (length dot) then Crash 5
                   else probe f files (STAR :: dot) (Some (tl dot))
               end
           end
@@ -191,11 +191,12 @@ Fixpoint load_valid (mask : list nat) (lines : list bytes) : list nat * list byt
               end
   end.
 
-(** tagvalue(): the first line that starts with the tag name, behind "name=" *)
+(** tagvalue() (with fixes/C20-tagvalue-prefix.diff): the first line that starts with "name=", behind it *)
 Fixpoint tagvalue (lines : list bytes) (tag : bytes) : option bytes :=
   match lines with
   | [] => None                                   (* cannot happen when the bit is set *)
-  | l :: r => if is_prefix tag l then Some (skipn (S (length tag)) l) else tagvalue r tag
+  | l :: r => if is_prefix tag l && N.eqb (nth (length tag) l 0%N) EQSIGN
+              then Some (skipn (S (length tag)) l) else tagvalue r tag
   end.
 
 Definition eval_file (cfg : route_cfg) (content : bytes) : route_result :=
